@@ -413,7 +413,7 @@ class SaveFile(Ext):
         raise Unsupported("file.%s" % name)
 
 
-def run_save(eng, w, model, options, pre_existing=None, codegen_libs=None):
+def run_save(eng, w, model, options, pre_existing=None, codegen_libs=None, concurrent_writer=False):
     """Execute the real save_model against a recording file system.  pre_existing: dict path label -> z3 Bool (the file may be there
     already: left by an interrupted earlier save or being written by another process).  Returns the record
     {opened: [(path, mode)], dumps: [(db, file)], replaced: [(src, dst)], removed: [...], raised: exception name or None}."""
@@ -422,6 +422,11 @@ def run_save(eng, w, model, options, pre_existing=None, codegen_libs=None):
     exists = dict(pre)
 
     def present(label):
+        # rely condition for a concurrent writer (a second transfer_model on the same folder running the same code): a file under a
+        # name that both calls compute alike can be created, replaced or moved away by the other call between any two of this
+        # call's operations -- its existence is arbitrary at every observation; only a name that is unique to this call is private
+        if concurrent_writer and "<unique" not in label:
+            return eng.fresh_bool("exists_now_" + label.replace("/", "_"))
         if label not in exists:
             exists[label] = eng.fresh_bool("exists_" + label.replace("/", "_"))
         return exists[label]
@@ -453,6 +458,20 @@ def run_save(eng, w, model, options, pre_existing=None, codegen_libs=None):
             raise PyRaise(make_exc("FileNotFoundError", la))
         rec["removed"].append(la)
         exists[la] = z3.BoolVal(False)
+    counter = {"n": 0}
+
+    def unique(eng, *a, **k):
+        counter["n"] += 1
+        return "<unique%d>" % counter["n"]
+    os_mod.attrs["getpid"] = stub(unique)
+    eng.ext_modules["uuid"] = ModuleStub("uuid", {"uuid4": stub(lambda eng: UniqueToken(unique(eng))), "uuid1": stub(lambda eng: UniqueToken(unique(eng)))})
+
+    def mkstemp(eng, *a, **k):
+        d = k.get("dir")
+        base = (d.label + "/" if isinstance(d, PathStr) else "") + unique(eng) + str(k.get("suffix", ""))
+        exists[base] = z3.BoolVal(True)
+        return (FdToken(base), PathStr(base))
+    eng.ext_modules["tempfile"] = ModuleStub("tempfile", {"mkstemp": stub(mkstemp)})
     os_mod.attrs["replace"] = stub(replace)
     os_mod.attrs["rename"] = stub(replace)
     os_mod.attrs["remove"] = stub(remove)
@@ -488,6 +507,28 @@ def run_save(eng, w, model, options, pre_existing=None, codegen_libs=None):
         rec["raised"] = e.exc.cls.name if isinstance(e.exc, VObj) else "?"
     rec["exists_after"] = exists
     return rec
+
+
+class UniqueToken(Ext):
+    type_names = ("UUID",)
+
+    def __init__(self, text):
+        self.text = text
+
+    def sym_getattr(self, eng, name):
+        if name == "hex":
+            return self.text
+        raise Unsupported("uuid.%s" % name)
+
+    def sym_unop(self, eng, op):
+        if op == "str":
+            return self.text
+        raise Unsupported("uuid %s" % op)
+
+
+class FdToken(Ext):
+    def __init__(self, path):
+        self.path = path
 
 
 class AttrMX(MXStub):
